@@ -54,16 +54,30 @@ func Verif_C03_Metadata() {
 	overHTTP := zv.Bool("over-http")
 	streaming := zv.Bool("streaming")
 	fails := zv.Bool("handler-fails")
-	sendHeaderExplicitly := zv.Bool("handler-calls-SendHeader")
-	headerBeforeRecv := zv.Bool("client-calls-Header-before-RecvMsg")
-	nHdrOpts := zv.Choose("header-call-options", zv.Param("optdup", 1)+1)
-	nTlrOpts := zv.Choose("trailer-call-options", zv.Param("optdup", 1)+1)
-
-	reqVal := verifPrintable("request-value", zv.Param("valcap", 2))
-	reqBin := zv.Bytes("request-bin-value", zv.Param("bincap", 2))
-	hdrVal := verifPrintable("header-value", zv.Param("valcap", 2))
-	tlrVal := verifPrintable("trailer-value", zv.Param("valcap", 2))
-	tlrBin := zv.Bytes("trailer-bin-value", zv.Param("bincap", 2))
+	// Values and scripts are independent dimensions: either the values are symbolic
+	// with the plain script, or the script (orders, options, ways of attaching) is
+	// symbolic with fixed values; the sum, not the product, of the two spaces.
+	symbolicValues := zv.Choose("focus-on-values", 2) == 1
+	sendHeaderExplicitly, headerBeforeRecv, appendMD := false, false, false
+	setsHeaders, sendsMessage := true, true
+	nHdrOpts, nTlrOpts := 1, 1
+	reqVal, hdrVal, tlrVal := "rv", "hv", "tv"
+	reqBin, tlrBin := []byte{0x00, 0xff}, []byte{0x01}
+	if symbolicValues {
+		reqVal = verifPrintable("request-value", zv.Param("valcap", 2))
+		reqBin = zv.Bytes("request-bin-value", zv.Param("bincap", 2))
+		hdrVal = verifPrintable("header-value", zv.Param("valcap", 2))
+		tlrVal = verifPrintable("trailer-value", zv.Param("valcap", 2))
+		tlrBin = zv.Bytes("trailer-bin-value", zv.Param("bincap", 2))
+	} else {
+		sendHeaderExplicitly = zv.Bool("handler-calls-SendHeader")
+		headerBeforeRecv = zv.Bool("client-calls-Header-before-RecvMsg")
+		appendMD = zv.Bool("caller-uses-AppendToOutgoingContext")
+		setsHeaders = zv.Bool("handler-sets-headers")
+		sendsMessage = zv.Bool("streaming-handler-sends-a-message")
+		nHdrOpts = zv.Choose("header-call-options", zv.Param("optdup", 1)+1)
+		nTlrOpts = zv.Choose("trailer-call-options", zv.Param("optdup", 1)+1)
+	}
 
 	textOnHeaderWire := overHTTP // request metadata and response headers travel as HTTP headers
 	trailerTextOnHeaderWire := overHTTP && !streaming
@@ -84,8 +98,10 @@ func Verif_C03_Metadata() {
 	}
 	hooks.Unary = func(tag string, ctx context.Context, req *zzfix.Msg) (*zzfix.Msg, error) {
 		checkIncoming(ctx)
-		zv.Assert(grpc.SetHeader(ctx, metadata.Pairs("h", hdrVal)) == nil, "set-header-accepted")
-		zv.Assert(grpc.SetHeader(ctx, metadata.Pairs("h", "h2")) == nil, "set-header-accepted")
+		if setsHeaders {
+			zv.Assert(grpc.SetHeader(ctx, metadata.Pairs("h", hdrVal)) == nil, "set-header-accepted")
+			zv.Assert(grpc.SetHeader(ctx, metadata.Pairs("h", "h2")) == nil, "set-header-accepted")
+		}
 		if sendHeaderExplicitly {
 			zv.Assert(grpc.SendHeader(ctx, nil) == nil, "send-header-accepted")
 			setAfterSent(func(md metadata.MD) error { return grpc.SetHeader(ctx, md) })
@@ -104,14 +120,18 @@ func Verif_C03_Metadata() {
 				break
 			}
 		}
-		zv.Assert(ss.SetHeader(metadata.Pairs("h", hdrVal)) == nil, "set-header-accepted")
-		zv.Assert(ss.SetHeader(metadata.Pairs("h", "h2")) == nil, "set-header-accepted")
+		if setsHeaders {
+			zv.Assert(ss.SetHeader(metadata.Pairs("h", hdrVal)) == nil, "set-header-accepted")
+			zv.Assert(ss.SetHeader(metadata.Pairs("h", "h2")) == nil, "set-header-accepted")
+		}
 		if sendHeaderExplicitly {
 			zv.Assert(ss.SendHeader(nil) == nil, "send-header-accepted")
 			setAfterSent(ss.SetHeader)
 		}
-		ss.SendMsg(&zzfix.Msg{Count: 7})
-		setAfterSent(ss.SetHeader)
+		if sendsMessage {
+			ss.SendMsg(&zzfix.Msg{Count: 7})
+			setAfterSent(ss.SetHeader)
+		}
 		ss.SetTrailer(metadata.Pairs("t", tlrVal, "t-bin", string(tlrBin)))
 		ss.SetTrailer(metadata.Pairs("t", "t2"))
 		if fails {
@@ -129,7 +149,13 @@ func Verif_C03_Metadata() {
 	}
 	ctx, cancel := context.WithCancel(context.Background())
 	defer cancel()
-	ctx = metadata.NewOutgoingContext(ctx, metadata.Pairs("k", reqVal, "k", "second", "x-bin", string(reqBin)))
+	if appendMD {
+		// part of the metadata is attached the incremental way
+		ctx = metadata.NewOutgoingContext(ctx, metadata.Pairs("k", reqVal))
+		ctx = metadata.AppendToOutgoingContext(ctx, "k", "second", "x-bin", string(reqBin))
+	} else {
+		ctx = metadata.NewOutgoingContext(ctx, metadata.Pairs("k", reqVal, "k", "second", "x-bin", string(reqBin)))
+	}
 	hdrs := make([]metadata.MD, nHdrOpts)
 	tlrs := make([]metadata.MD, nTlrOpts)
 	var opts []grpc.CallOption
@@ -173,6 +199,9 @@ func Verif_C03_Metadata() {
 		if final == io.EOF {
 			final = nil
 		}
+		if streamHdr == nil {
+			streamHdr, _ = cs.Header() // no message arrived: the headers come with the end
+		}
 		streamTlr = cs.Trailer()
 	}
 	zv.Observe("call", overHTTP, streaming, fails, final == nil)
@@ -189,6 +218,10 @@ func Verif_C03_Metadata() {
 		return
 	}
 	checkHeader := func(md metadata.MD, what string) {
+		if !setsHeaders {
+			zv.Assert(len(md["h"]) == 0, what)
+			return
+		}
 		ok := verifSameValues(md["h"], hdrVal, "h2")
 		if textOnHeaderWire {
 			zv.AssertExcept(ok, what, "KF-C03-http-text-value-outer-space-trimmed", verifOuterSpace(hdrVal))
@@ -206,7 +239,8 @@ func Verif_C03_Metadata() {
 		zv.Assert(len(md["t-bin"]) == 1 && md["t-bin"][0] == string(tlrBin), what+"-binary-byte-exact")
 	}
 	// headers: observable once the first message is (streams), or with the result
-	if gotMsg || !streaming {
+	_ = gotMsg
+	{
 		zv.Reach("headers-checked")
 		for i := range hdrs {
 			checkHeader(hdrs[i], fmt.Sprintf("header-option-%d-filled", i))
